@@ -147,8 +147,12 @@ def rand_op(rng, allow_capture=True):
             kw["style"] = rng.choice(["bold", "on blue", "italic red"])
         if rng.random() < 0.15:
             kw["justify"] = rng.choice(["center", "right"])
+        if rng.random() < 0.15:
+            kw["end"] = rng.choice(["", "!\n", "\n\n", "\n\n\n", " \n\n"])
         if rng.random() < 0.1:
-            kw["end"] = rng.choice(["", "!\n"])
+            kw["soft_wrap"] = True        # no wrapping, no cropping: the text goes out as it is
+        if rng.random() < 0.05:
+            kw["crop"] = False
         p = rand_printable(rng)
         if p[0] == "plain":
             kw["markup"] = False
@@ -175,7 +179,8 @@ def rand_op(rng, allow_capture=True):
         if q < 0.85:
             return ["log_empty"]
         return ["out", [str(o) for o in objects], rng.choice([{}, {"sep": "-"}, {"end": ""}, {"style": "bold"},
-                                                                {"highlight": False}])]
+                                                                {"highlight": False}, {"style": "on red", "end": "\n\n"},
+                                                                {"style": "black on white", "end": "\n\n\n"}])]
     if r < 0.56:
         return ["rule", rng.choice(["", "title", "a < b & c", "漢字"])]
     if r < 0.61:
